@@ -1360,7 +1360,9 @@ def unpack_collection(spec: ValueSpec) -> Optional[Expression]:
         default_factory_type = args[1] if args else None
         while is_type_alias_type(default_factory_type):
             default_factory_type = default_factory_type.__value__
-        default_type = type_name(default_factory_type)
+        default_type = spec.builder.get_type_name_identifier(
+            default_factory_type
+        )
         return (
             f"collections.defaultdict({default_type}, "
             f"{{{inner_expr(0, 'key')}: "
